@@ -29,6 +29,8 @@ SCENARIOS = {
     'shift_x': dict(mode='free', matter='none', input_form='components', shift='x', order=1),
     'shift_z': dict(mode='free', matter='none', input_form='components', shift='z', order=1),
     'noshift': dict(mode='free', matter='none', input_form='tensor', shift='zero', order=1),
+    # the initial slice of a Gamma-driver evolution: the shift vanishes (and is not supplied) but its time derivative does not
+    'noshift_dtshift': dict(mode='free', matter='none', input_form='tensor', shift='zero', dtshift_free=True, order=1),
     # nothing supplied at all: every quantity must follow from the documented defaults
     'default': dict(mode='free', matter='none', input_form='none', shift='zero', lapse='one', with_K=False,
                     flat=True, order=1),
@@ -43,6 +45,8 @@ def shape_inputs(scen, U, F):
         U.base['dtbeta'] = arr([J.const(F, 0)] * 3)
     if scen == 'noshift':
         U.drop_inputs('betaup3', 'dtbetaup3')
+    if scen == 'noshift_dtshift':
+        U.drop_inputs('betaup3')
     if scen == 'default':
         U.drop_inputs('alpha', 'dtalpha')
 
